@@ -8,48 +8,63 @@
 (*   Unreachable(a)  RemoteUnreachableEvent for address a (through the event child *)
 (*                   as memberLeave): remove the member with that host, report;    *)
 (*                   an address that belongs to no member changes nothing          *)
+(* A member is identified by its id; its address (host) is an attribute fixed when  *)
+(* the member is added.  A peer in AltHosts may introduce itself under a second     *)
+(* address (a node that came back under its configured id on a fresh port).         *)
 (* FixUnknown = FALSE models the code before the repair: removeMember(nil)         *)
 (* dereferences nil, the provider actor is restarted and starts over with itself.  *)
 EXTENDS Integers, Sequences, FiniteSets, TLC
 
 CONSTANTS Self, Peers, Unknown, MaxOps, FixUnknown, AddAll,
           HandshakeSet, MemberLists, UnreachSet,   \* the inputs used (subsets of the full input alphabet)
-          KeepHist                                 \* TRUE: the input history is part of the state (every sequence is a path of its own)
+          KeepHist,                                \* TRUE: the input history is part of the state (every sequence is a path of its own)
+          AltHosts                                 \* peers that may also show up under their second address
 
 Universe == {Self} \cup Peers
-VARIABLES members, agent, reply, restarts, nops, lastop, hist
-vars == <<members, agent, reply, restarts, nops, lastop, hist>>
+VARIABLES members, agent, reply, restarts, nops, lastop, hist,
+          host        \* id -> the address the member was added with (meaningful for members)
+vars == <<members, agent, reply, restarts, nops, lastop, hist, host>>
 
-Init == members = {Self} /\ agent = {Self} /\ reply = {} /\ restarts = 0 /\ nops = 0 /\ lastop = "none" /\ hist = <<>>
+Addr(m, alt) == IF alt THEN m \o "2" ELSE m
+AltAddrs == {Addr(m, TRUE) : m \in AltHosts}
 
-Handshake(m) ==
-  /\ nops < MaxOps /\ m \in HandshakeSet
-  /\ hist' = IF KeepHist THEN Append(hist, <<"h", m>>) ELSE hist
+Init == /\ members = {Self} /\ agent = {Self} /\ reply = {} /\ restarts = 0 /\ nops = 0 /\ lastop = "none" /\ hist = <<>>
+        /\ host = [m \in Universe |-> m]
+
+Handshake(m, alt) ==
+  /\ nops < MaxOps /\ m \in HandshakeSet /\ (alt => m \in AltHosts)
+  /\ hist' = IF KeepHist THEN Append(hist, <<"h", m, alt>>) ELSE hist
   /\ members' = members \cup {m}
+  /\ host' = IF m \in members THEN host ELSE [host EXCEPT ![m] = Addr(m, alt)]     \* a member that is listed keeps its entry
   /\ reply' = members \cup {m}            \* Members{...} sent to the sender of the handshake
   /\ agent' = members \cup {m}
   /\ nops' = nops + 1 /\ lastop' = "handshake" /\ UNCHANGED restarts
 
+(* a member list from a peer: the members appear in it under their first address *)
 MembersMsg(L) ==
   /\ nops < MaxOps /\ L \in MemberLists
   /\ hist' = IF KeepHist THEN Append(hist, <<"m", L>>) ELSE hist
   /\ members' = IF AddAll THEN members \cup L ELSE members \cup {CHOOSE x \in L : TRUE}
+  /\ host' = [m \in Universe |-> IF m \in members' \ members THEN m ELSE host[m]]
   /\ agent' = members'
   /\ reply' = {} /\ nops' = nops + 1 /\ lastop' = "members" /\ UNCHANGED restarts
 
-(* a member's address is its name here; Unknown is an address no member has *)
+(* RemoteUnreachableEvent for address a: the member that was added with this address leaves; Unknown is an address no
+   member ever has; an address nobody is listed with changes nothing (a late report for the old address of a member
+   that is back under a new one, say) *)
 Unreachable(a) ==
-  /\ nops < MaxOps /\ a \in UnreachSet
+  /\ nops < MaxOps /\ a \in UnreachSet \cup AltAddrs
   /\ hist' = IF KeepHist THEN Append(hist, <<"u", a>>) ELSE hist
-  /\ IF a \in members
-     THEN members' = members \ {a} /\ agent' = members \ {a} /\ UNCHANGED restarts
+  /\ LET gone == {m \in members : host[m] = a} IN
+     IF gone # {}
+     THEN members' = members \ gone /\ agent' = members \ gone /\ UNCHANGED restarts
      ELSE IF FixUnknown THEN UNCHANGED <<members, agent, restarts>>
      ELSE members' = {Self} /\ agent' = {Self} /\ restarts' = restarts + 1      \* nil dereference, restart, Started again
-  /\ reply' = {} /\ nops' = nops + 1 /\ lastop' = "unreachable"
+  /\ reply' = {} /\ nops' = nops + 1 /\ lastop' = "unreachable" /\ UNCHANGED host
 
-Next == \/ \E m \in HandshakeSet : Handshake(m)
+Next == \/ \E m \in HandshakeSet, alt \in BOOLEAN : Handshake(m, alt)
         \/ \E L \in MemberLists : MembersMsg(L)
-        \/ \E a \in UnreachSet : Unreachable(a)
+        \/ \E a \in UnreachSet \cup AltAddrs : Unreachable(a)
 Spec == Init /\ [][Next]_vars
 
 (* C20 *)
